@@ -13,6 +13,8 @@ import PdfVerif.Lemmas.FiltersChain
 import PdfVerif.Lemmas.FiltersA85
 import PdfVerif.Lemmas.FiltersLzw
 import PdfVerif.Lemmas.FiltersFuel
+import PdfVerif.Lemmas.FiltersGen
+import PdfVerif.Lemmas.FiltersScan
 
 namespace PdfVerif.Props.C03
 open PdfVerif PdfVerif.Filters PdfVerif.FilterEnc PdfVerif.Gen.Filters
@@ -27,7 +29,8 @@ theorem png_rt (colors columns bpc : Nat) (hbpc : bpc = 8 ∨ bpc = 1) (rows : L
     (hfts : ∀ f ∈ fts, f ≤ 4) :
     apply_png_predictor colors columns bpc (pngEnc colors columns bpc fts rows) = .ok rows.flatten := by
   have hb : (bpc != 8 && bpc != 1) = false := by rcases hbpc with rfl | rfl <;> rfl
-  unfold apply_png_predictor pngEnc
+  rw [apply_png_predictor_lit]
+  unfold pngEnc
   rw [hb]
   simp only [Bool.false_eq_true, if_false]
   exact pngRows_rt _ _ (by unfold pngBpp; omega) rows fts _ _ hrows hlen hfts (by simp) (Nat.le_refl _)
@@ -46,7 +49,7 @@ theorem tiff_rt (colors columns : Nat) (hc : 0 < colors) (hw : 0 < columns) (row
     apply_tiff_predictor colors columns 8 (tiffEnc colors rows) = .ok rows.flatten := by
   have hn : 0 < columns * colors := Nat.mul_pos hw hc
   have h0 : (columns * colors == 0) = false := by simp; omega
-  unfold apply_tiff_predictor
+  rw [apply_tiff_predictor_lit]
   simp only [h0]
   exact tiffRows_rt _ _ hc hn rows _ hrows (Nat.le_refl _)
 
@@ -107,7 +110,8 @@ example : rldecode (rlEnc [.run 3 7, .lit [1, 2, 128], .run 128 0] true)
 /-- ASCIIHex: any mix of upper/lower-case digits, any white space between digits, with `>`,
 without EOD marker, or with `>` after an odd number of digits (final `0` left out). -/
 theorem ahx_rt (cs : List Nat) (tail : Nat) (x : Bytes) : asciihexdecode (ahxEnc cs tail x) = .ok x := by
-  unfold asciihexdecode ahxEnc
+  rw [asciihexdecode_lit]
+  unfold ahxEnc
   have hno := ahxDigits_no_gt cs (tail == 2) x
   by_cases h1 : tail = 1
   · subst h1
@@ -275,15 +279,15 @@ theorem predictor_rt (pr : Option Parms) (y z : Bytes) (h : PredEncodes pr y z) 
   cases h with
   | none => rfl
   | noPredictor p y h =>
-    rcases h with h | h <;> simp [applyPredictor, h]
+    rcases h with h | h <;> simp [applyPredictor_lit, h]
   | tiff p rows hp hb hc hw hrows =>
-    simp only [applyPredictor, hp]
+    simp only [applyPredictor_lit, hp]
     have h1 : ((2 : Nat) == 1) = false := rfl
     have h2 : ((2 : Nat) == 2) = true := rfl
     simp only [h1, h2, Bool.false_eq_true, if_false, if_true, hb]
     exact tiff_rt _ _ hc hw rows hrows
   | png p pred rows fts hp h10 hb hrows hlen hfts =>
-    simp only [applyPredictor, hp]
+    simp only [applyPredictor_lit, hp]
     have h1 : (pred == 1) = false := by simp; omega
     have h2 : (pred == 2) = false := by simp; omega
     simp only [h1, h2, Bool.false_eq_true, if_false, ge_iff_le, h10, if_true]
@@ -360,6 +364,56 @@ example : streamDecode id (.list [[65, 72, 120], [70, 108]])
     (.list [none, some { predictor := some 12, colors := some 2, columns := some 2, bpc := none }])
     (ahxEnc [1, 2] 0 (pngEnc 2 2 8 [4] [[1, 2, 3, 4]])) = .ok [1, 2, 3, 4] := by decide
 
+/-! ## Round 6: the single forms of `Filter` / `DecodeParms` -/
+
+/-- `DecodeParms` as the stream dictionary writes it for a parameter value shared by all filters:
+absent, or ONE dictionary (not an array). -/
+def sharedParms : Option Parms → ParmsVal
+  | none => .absent
+  | some d => .dict d
+
+/-- The `Filter` array with ONE `DecodeParms` dictionary (or none) for all filters - the single form
+of `DecodeParms` - decodes to the payload, for chains of any length. -/
+theorem stream_shared_parms_rt {inflate : Bytes → Bytes} (stages : List (Stage inflate)) (x z : Bytes)
+    (h : ChainEncodes stages x z) (p : Option Parms) (hp : ∀ s ∈ stages, s.filt.2 = p) :
+    streamDecode inflate (.list (stages.map (·.filt.1))) (sharedParms p) z = .ok x := by
+  have hz : ∀ l : List (Stage inflate), (∀ s ∈ l, s.filt.2 = p) →
+      List.zip (l.map (·.filt.1)) (List.replicate (l.map (·.filt.1)).length p) = l.map (·.filt) := by
+    intro l hl
+    induction l with
+    | nil => rfl
+    | cons s ss ih =>
+      have h1 : s.filt.2 = p := hl s (by simp)
+      have := ih (fun s hs => hl s (by simp [hs]))
+      simp only [List.map_cons, List.length_cons, List.replicate_succ, List.zip_cons_cons, this]
+      congr 1
+      rw [← h1]
+  unfold streamDecode streamDecodeRaw getFilters
+  cases stages with
+  | nil => cases h; cases p <;> rfl
+  | cons s ss =>
+    have hc := chain_rt (s :: ss) x z h
+    have hz' := hz (s :: ss) hp
+    cases p with
+    | none =>
+      simp only [sharedParms, List.map_cons, List.isEmpty_cons, Bool.false_eq_true, if_false] at hz' hc ⊢
+      rw [hz', hc]
+    | some d =>
+      simp only [sharedParms, List.map_cons, List.isEmpty_cons, Bool.false_eq_true, if_false] at hz' hc ⊢
+      rw [hz', hc]
+
+/-- The single forms: `Filter` a name (not an array) and `DecodeParms` a dictionary or absent. -/
+theorem stream_single_rt {inflate : Bytes → Bytes} (s : Stage inflate) (x z : Bytes) (h : s.Encodes x z) :
+    streamDecode inflate (.name s.filt.1) (sharedParms s.filt.2) z = .ok x := by
+  have := stream_shared_parms_rt [s] x z (ChainEncodes.cons s [] x x z (ChainEncodes.nil x) h) s.filt.2
+    (by intro s' hs'; simp at hs'; rw [hs'])
+  unfold streamDecode streamDecodeRaw getFilters at this ⊢
+  simpa using this
+
+example : streamDecode id (.name [65, 72, 120]) .absent [52, 49, 62] = .ok [0x41] := by decide
+example : streamDecode id (.name [70, 108]) (.dict ⟨some 12, none, some 2, none⟩) [2, 1, 2, 2, 1, 1] = .ok [1, 2, 2, 3] := by decide
+example : streamDecode id (.list [[65, 72, 120], [70, 108]]) (.dict ⟨some 1, none, none, none⟩) [52, 49, 62] = .ok [0x41] := by decide
+
 /-! ## Bounded work: the fuel of every fuelled loop suffices
 
 Each decoder loop of the model takes fuel that is a linear function of the input length; the
@@ -383,6 +437,484 @@ theorem png_fuel (nbytes bpp : Nat) (above data : Bytes) (k : Nat) :
 theorem tiff_fuel (nbytes bpp : Nat) (hn : 0 < nbytes) (data : Bytes) (k : Nat) :
     tiffRows nbytes bpp (data.length + k) data = tiffRows nbytes bpp data.length data :=
   tiffRows_fuel nbytes bpp hn _ _ data (by omega) (by omega)
+
+/-! ## Round 6: the model's constants and row arithmetic are the ones regenerated from the Python
+
+`Gen.Filters` now also carries, regenerated on every run, the constants and straight-line
+arithmetic of lzw.py (`LZWDecoder.__init__`/`feed`), runlength.py (`rldecode`) and utils.py
+(`apply_png_predictor`, `apply_tiff_predictor`).  `nbitsAfter`, `pngNbytes`, `pngBpp` are used by
+the model directly (so `lzw_rt`, `png_rt`, … are proofs about the translated code); the theorems
+below state that every remaining hand-written constant / formula of the model equals the
+translated one, for all inputs.  An edit of the Python (Clear code, width schedule, EOD byte,
+`257 - length`, `& 255`, `(a + b) // 2`, `bpp`, `nbytes`, …) breaks one of these proofs. -/
+
+/-- lzw.py: Clear/EOD codes, the initial table (`range(256)` + two `None`s), the reset width, the
+width schedule on the table length, and the decoder's initial reader state.  Since round 6 the model
+(`feed`, `tableLen`, `tableGet`, `feedGrow`, `lzwInit`, `lzwdecode`) uses the translated constants
+directly - `lzw_rt` is a proof about them; `Lemmas/FiltersLit.lean` unfolds them to the literals. -/
+theorem lzw_translated :
+    (∀ st, feed st LZW_CLEAR = .ok { nbits := LZW_NBITS_RESET, init := true, ext := [], prev := some [] } []) ∧
+    (∀ st, feed st LZW_EOD = .ok st []) ∧
+    (∀ st, st.init = true → tableLen st = LZW_FIRST_FREE + st.ext.length) ∧
+    (∀ st code, st.init = true → code < LZW_LITERALS → tableGet st code = some [UInt8.ofNat code]) ∧
+    (∀ st code, LZW_LITERALS ≤ code → code < LZW_FIRST_FREE → tableGet st code = none) ∧
+    (∀ st entry x, feedGrow st entry x =
+      .ok { st with ext := st.ext ++ [entry],
+                    nbits := nbitsAfter st.nbits (LZW_FIRST_FREE + (st.ext ++ [entry]).length),
+                    prev := some x } x) ∧
+    lzwInit.nbits = LZW_INIT_NBITS ∧
+    (∀ data, lzwdecode data = lzwRunB (8 * data.length + 1) lzwInit data LZW_INIT_BUFF LZW_INIT_BPOS) := by
+  refine ⟨fun _ => rfl, fun _ => rfl, ?_, ?_, ?_, fun _ _ _ => rfl, rfl, fun _ => rfl⟩
+  · intro st h; simp [tableLen, h]
+  · intro st code h hc; simp [tableGet, h, hc]
+  · intro st code h1 h2
+    have : ¬ code < LZW_LITERALS := by omega
+    simp [tableGet, this, h2]
+
+example : feed lzwInit LZW_CLEAR = .ok { nbits := 9, init := true, ext := [], prev := some [] } [] := rfl
+example : nbitsAfter 9 511 = 10 ∧ nbitsAfter 10 1023 = 11 ∧ nbitsAfter 11 2047 = 12 ∧ nbitsAfter 12 4095 = 12 := by decide
+
+/-- lzw.py, `LZWDecoder.readbits`: one iteration of the model's bit reader is the translated loop body
+(`r = 8 - self.bpos`; `v = (v << bits) | ((self.buff >> (r - bits)) & ((1 << bits) - 1))` when the
+bits fit, else `v = (v << r) | (self.buff & ((1 << r) - 1))` and the next byte is fetched) - the
+shifts and masks as Python writes them, for every state. -/
+theorem lzw_readbits_translated (rest : Bytes) (buff bpos bits v : Nat) :
+    readbits rest buff bpos bits v =
+      (if lzwFits bits (lzwAvail bpos) then
+         some (lzwTakeAll v bits buff (lzwAvail bpos), buff, bpos + bits, rest)
+       else match rest with
+         | [] => none
+         | x :: rest' => readbits rest' x.toNat 0 (bits - lzwAvail bpos) (lzwTakePart v (lzwAvail bpos) buff)) := by
+  cases rest with
+  | nil =>
+    simp only [readbits, lzwFits, lzwAvail, lzwTakeAll_eq, lzwTakePart_eq, decide_eq_true_eq]
+    by_cases h : bits ≤ 8 - bpos <;> simp [h]
+  | cons x r =>
+    simp only [readbits, lzwFits, lzwAvail, lzwTakeAll_eq, lzwTakePart_eq, decide_eq_true_eq]
+    by_cases h : bits ≤ 8 - bpos <;> simp [h]
+
+example : lzwTakeAll 5 3 0b10110100 6 = 0b101110 ∧ lzwTakePart 1 2 0b10110110 = 0b110 := by decide
+example : readbits [0x0B] 0x80 0 9 0 = some (256, 0x0B, 1, []) := by decide
+
+/-- runlength.py: one step of `rldecode` written with the translated EOD byte, literal / repeat
+tests and counts (since round 6 the model `rldecodeAux` uses them directly, so this is its
+unfolding and `rl_rt` is a proof about the translated constants); the two tests exhaust the non-EOD
+length bytes (the model's final `else` is the `if length > 128` branch) and an exhausted iterator
+reads as EOD. -/
+theorem rl_translated (fuel : Nat) (l : UInt8) (rest : Bytes) :
+    RL_EOF_DEFAULT = RL_EOD ∧
+    rldecodeAux (fuel + 1) (l :: rest) =
+      (if l.toNat = RL_EOD then .ok []
+       else if rlIsLiteral l.toNat then
+         (if rest.length < rlLiteralCount l.toNat then .error .runtimeError
+          else match rldecodeAux fuel (rest.drop (rlLiteralCount l.toNat)) with
+            | .ok r => .ok (rest.take (rlLiteralCount l.toNat) ++ r)
+            | .error e => .error e)
+       else match rest with
+         | [] => .error .stopIteration
+         | b :: rest' =>
+           match rldecodeAux fuel rest' with
+           | .ok r => .ok (List.replicate (rlRepeatCount l.toNat) b ++ r)
+           | .error e => .error e) ∧
+    (l.toNat ≠ RL_EOD → rlIsLiteral l.toNat = false → rlIsRepeat l.toNat = true) := by
+  refine ⟨rfl, ?_, ?_⟩
+  · simp only [rldecodeAux, RL_EOD, rlIsLiteral, rlLiteralCount, rlRepeatCount]
+    by_cases h1 : l.toNat = 128
+    · simp [h1]
+    · by_cases h2 : l.toNat < 128 <;> simp [h1, h2]
+      · by_cases h3 : List.length rest < l.toNat + 1
+        · simp [h3]
+        · simp only [h3, if_false]
+          cases rldecodeAux fuel (List.drop (l.toNat + 1) rest) <;> rfl
+      · cases rest with
+        | nil => rfl
+        | cons b r => simp only []; cases rldecodeAux fuel r <;> rfl
+  · simp only [RL_EOD, rlIsLiteral, rlIsRepeat]
+    intro h1 h2
+    simp at h2 ⊢
+    omega
+
+example : rlIsLiteral 127 = true ∧ rlLiteralCount 127 = 128 ∧ rlIsRepeat 129 = true ∧ rlRepeatCount 129 = 128
+    ∧ rlRepeatCount 255 = 2 ∧ rlIsLiteral 128 = false ∧ rlIsRepeat 128 = false := by decide
+
+/-- utils.apply_png_predictor: the byte each filter type adds back, as the translated `raw_x`
+formulas; the supported BitsPerComponent list; filter types outside the translated `if` chain raise. -/
+theorem png_translated (x a b c : UInt8) (bpc bpp : Nat) (ft : UInt8) (above enc : Bytes) :
+    (x + pngPred 1 a 0 0).toNat = pngRaw1 x.toNat a.toNat ∧
+    (x + b).toNat = pngRaw2 x.toNat b.toNat ∧
+    (x + pngPred 3 a b 0).toNat = pngRaw3 x.toNat a.toNat b.toNat ∧
+    (x + pngPred 4 a b c).toNat = pngRaw4 x.toNat (paeth_predictor a.toNat b.toNat c.toNat).toNat ∧
+    (bpc != 8 && bpc != 1) = !PNG_BPC.contains bpc ∧
+    (ft.toNat ∉ PNG_FILTER_TYPES → pngRow ft bpp above enc = .error .pdfValue) := by
+  have ha := a.toNat_lt; have hb := b.toNat_lt
+  refine ⟨?_, ?_, ?_, ?_, ?_, ?_⟩
+  · simp [pngPred, pngRaw1, u8_add_toNat]
+  · simp [pngRaw2, u8_add_toNat]
+  · have : pngPred 3 a b 0 = UInt8.ofNat ((a.toNat + b.toNat) / 2) := by simp [pngPred]
+    rw [this, u8_add_toNat, toNat_ofNat_lt _ (by omega)]; rfl
+  · have : pngPred 4 a b c = UInt8.ofNat (Int.toNat (paeth_predictor a.toNat b.toNat c.toNat % 256)) := by
+      simp [pngPred]
+    rw [this, u8_add_toNat, paeth_u8]; rfl
+  · by_cases h8 : bpc = 8 <;> by_cases h1 : bpc = 1 <;> simp [PNG_BPC, h8, h1]
+  · intro h
+    simp only [PNG_FILTER_TYPES, List.mem_cons, List.not_mem_nil, or_false, not_or] at h
+    have n0 : ft ≠ 0 := fun e => h.1 (by rw [e]; rfl)
+    have n1 : ft ≠ 1 := fun e => h.2.1 (by rw [e]; rfl)
+    have n2 : ft ≠ 2 := fun e => h.2.2.1 (by rw [e]; rfl)
+    have n3 : ft ≠ 3 := fun e => h.2.2.2.1 (by rw [e]; rfl)
+    have n4 : ft ≠ 4 := fun e => h.2.2.2.2 (by rw [e]; rfl)
+    simp [pngRow, n0, n1, n2, n3, n4]
+
+example : pngRaw3 200 255 255 = 199 ∧ pngRaw4 250 10 = 4 ∧ pngNbytes 3 5 1 = 2 ∧ pngBpp 3 1 = 1 ∧ pngBpp 4 8 = 4 := by decide
+example : pngRow 5 1 [0] [7] = .error .pdfValue := by decide
+
+/-- utils.apply_tiff_predictor: written with the translated `bpp`, `nbytes`, supported
+BitsPerComponent, the `i >= bpp` test and the modulus. -/
+theorem tiff_translated (colors columns bpc : Nat) (data : Bytes) (bpp : Nat) (raw : Bytes) (x : UInt8) (xs : Bytes) :
+    apply_tiff_predictor colors columns bpc data =
+      (if bpc != TIFF_BPC then .error .pdfValue
+       else if tiffNbytes columns (tiffBpp colors bpc) == 0 then .error .valueError
+       else tiffRows (tiffNbytes columns (tiffBpp colors bpc)) (tiffBpp colors bpc) data.length data) ∧
+    tiffRow bpp raw (x :: xs) =
+      tiffRow bpp (raw ++ [if tiffHasLeft raw.length bpp
+        then UInt8.ofNat ((x.toNat + (raw.getD (raw.length - bpp) 0).toNat) % TIFF_MOD) else x]) xs := by
+  constructor
+  · by_cases h : bpc = 8
+    · subst h; simp [apply_tiff_predictor]
+    · simp [apply_tiff_predictor, h]
+  · simp only [tiffRow, tiffHasLeft, TIFF_MOD]
+    congr 2
+    by_cases h : raw.length ≥ bpp <;> simp [h]
+    apply UInt8.toNat_inj.mp
+    rw [u8_add_toNat, toNat_ofNat_lt _ (Nat.mod_lt _ (by omega))]
+
+example : apply_tiff_predictor 2 2 8 [1, 2, 3, 4] = .ok [1, 2, 4, 6] := by decide
+example : tiffNbytes 3 (tiffBpp 2 8) = 6 ∧ tiffHasLeft 1 2 = false ∧ tiffHasLeft 2 2 = true := by decide
+
+/-- ascii85.py: the regex sources are exactly the patterns `stripStart` / `stripEnd` / `isWs` implement
+(`^\s*<?\s*~\s*`, `\s*~\s*>?\s*$`, `\s`), `base64.a85decode` is called with its default options, and
+`asciihexdecode` is written with the translated EOD byte, pad digit and odd-length test. -/
+theorem a85_ahx_translated (data : Bytes) :
+    A85_START_RE = [94, 92, 115, 42, 60, 63, 92, 115, 42, 126, 92, 115, 42] ∧
+    A85_END_RE = [92, 115, 42, 126, 92, 115, 42, 62, 63, 92, 115, 42, 36] ∧
+    AHX_WS_RE = [92, 115] ∧
+    A85DECODE_EXTRA_ARGS = 0 ∧
+    asciihexdecode data =
+      (let d := data.filter (fun b => !isWs b)
+       let t := d.takeWhile (fun b => [b] != AHX_EOD)
+       if t.length < d.length then unhexlify (if ahxNeedsPad t.length then t ++ AHX_PAD else t)
+       else unhexlify d) := by
+  exact ⟨by decide, by decide, by decide, rfl, rfl⟩
+
+example : ahxNeedsPad 3 = true ∧ ahxNeedsPad 4 = false := by decide
+example : asciihexdecode [52, 32, 49, 55, 62, 55] = .ok [0x41, 0x70] := by decide
+
+/-- CPython's `base64.a85decode` (translated from the source of the running interpreter): it is called
+with `foldspaces = adobe = False`; one iteration of the model's loop is the translated `if` chain
+(digit range, group length, `85 * acc + (x - 33)`, the `z` group, `ignorechars`), and the model's
+final step uses the translated padding bytes and `padding = 4 - len(curr)`. -/
+theorem a85decode_translated (curr : List Nat) (x : UInt8) (rest b : Bytes) :
+    A85_FOLDSPACES = false ∧ A85_ADOBE = false ∧
+    a85loop curr (x :: rest) =
+      (if a85IsDigit x.toNat then
+         (if (curr ++ [x.toNat]).length == A85_GROUP then
+            (if (curr ++ [x.toNat]).foldl a85Step 0 ≥ 4294967296 then .error .valueError
+             else match a85loop [] rest with
+               | .ok (out, c) => .ok (be32 ((curr ++ [x.toNat]).foldl a85Step 0) ++ out, c)
+               | .error e => .error e)
+          else a85loop (curr ++ [x.toNat]) rest)
+       else if x.toNat == A85_Z then
+         (if !curr.isEmpty then .error .valueError
+          else match a85loop [] rest with
+            | .ok (out, c) => .ok (A85_ZGROUP ++ out, c)
+            | .error e => .error e)
+       else if A85_IGNORECHARS.contains x then a85loop curr rest
+       else .error .valueError) ∧
+    a85decode b =
+      (match a85loop [] (b ++ A85_PAD) with
+       | .error e => .error e
+       | .ok (res, curr) =>
+         .ok (if a85Padding curr.length != 0 then res.take (res.length - a85Padding curr.length) else res)) := by
+  refine ⟨rfl, rfl, ?_, ?_⟩
+  · have hz : (x == 122) = decide (x.toNat = 122) := u8_beq_toNat x 122 (by omega)
+    have hacc : ∀ l : List Nat, a85acc l = l.foldl a85Step 0 := fun l => rfl
+    have hig : isA85Ignore x = A85_IGNORECHARS.contains x := by
+      simp only [isA85Ignore, A85_IGNORECHARS, List.contains_cons, List.contains_nil, Bool.or_false, Bool.or_assoc]
+    have hdig : a85IsDigit x.toNat = decide (33 ≤ x.toNat ∧ x.toNat ≤ 117) := by
+      simp [a85IsDigit]
+    simp only [a85loop, hz, hacc, hig, hdig, decide_eq_true_eq, beq_iff_eq, A85_GROUP, A85_Z, A85_ZGROUP]
+    by_cases hd : 33 ≤ x.toNat ∧ x.toNat ≤ 117
+    · simp only [hd, if_true, and_self]
+      cases a85loop [] rest with
+      | error e => rfl
+      | ok p => rfl
+    · simp only [hd, if_false]
+      cases a85loop [] rest with
+      | error e => rfl
+      | ok p => rfl
+  · simp only [a85decode, A85_PAD, a85Padding]
+    cases a85loop [] (b ++ [117, 117, 117, 117]) with
+    | error e => rfl
+    | ok p => rfl
+
+example : a85IsDigit 33 = true ∧ a85IsDigit 117 = true ∧ a85IsDigit 118 = false ∧ a85Step 1 34 = 86 ∧ a85Padding 2 = 2 := by decide
+
+/-- pdftypes.py, `PDFStream._decode`: the predictor dispatch of the model is the translated
+`if pred == 1 / elif pred == 2 / elif pred >= 10 / else` chain (0 = none, 1 = TIFF, 2 = PNG,
+3 = `PDFNotImplementedError`) with the translated defaults of Colors / Columns / BitsPerComponent. -/
+theorem predictor_translated (p : Parms) (pred : Nat) (data : Bytes) (hp : p.predictor = some pred) :
+    applyPredictor (some p) data =
+      (match predKind pred with
+       | 0 => .ok data
+       | 1 => apply_tiff_predictor (p.colors.getD PRED_TIFF_DEFAULTS.1) (p.columns.getD PRED_TIFF_DEFAULTS.2.1)
+                (p.bpc.getD PRED_TIFF_DEFAULTS.2.2) data
+       | 2 => apply_png_predictor (p.colors.getD PRED_PNG_DEFAULTS.1) (p.columns.getD PRED_PNG_DEFAULTS.2.1)
+                (p.bpc.getD PRED_PNG_DEFAULTS.2.2) data
+       | _ => .error .pdfNotImplemented) := by
+  simp only [applyPredictor_lit, hp, predKind, PRED_TIFF_DEFAULTS, PRED_PNG_DEFAULTS]
+  by_cases h1 : pred = 1
+  · simp [h1]
+  · by_cases h2 : pred = 2
+    · simp [h2]
+    · by_cases h3 : pred ≥ 10
+      · simp [h1, h2, h3]
+      · simp [h1, h2, h3]
+
+example : predKind 1 = 0 ∧ predKind 2 = 1 ∧ predKind 10 = 2 ∧ predKind 15 = 2 ∧ predKind 3 = 3 ∧ predKind 0 = 3 := by decide
+example : applyPredictor (some ⟨some 12, none, some 2, none⟩) [2, 1, 2, 2, 1, 1] = .ok [1, 2, 2, 3] := by decide
+
+/-! ## Round 6: the whole `stream` branch — Length clamp, `endstream` scan, fallback mode
+
+`streamRead` (tied to `PDFParser.do_keyword` on every run, fallback and non-fallback, any `Length`)
+returns `rawdata` and the position the parser is left at.  `ENDSTREAM_MARK` and `streamClamp` are
+regenerated from pdfparser.py. -/
+
+/-- The `while 1` loop after the Length bytes passes over exactly `d` - for EVERY `d` in which the
+first `endstream` of `d ++ endstream` is the final one (i.e. `d` does not contain the marker),
+whatever line ends `d` contains, provided the marker's line is complete. -/
+theorem stream_scan_delim (d q eol rest : Bytes) (k : Nat)
+    (hd : findSub ENDSTREAM_MARK (d ++ ENDSTREAM_MARK) = some d.length)
+    (hq : ∀ c ∈ q, c ≠ 10 ∧ c ≠ 13) (heol : EolOk eol rest) :
+    scanEndstream (d.length + 1 + k) (d ++ ENDSTREAM_MARK ++ q ++ eol ++ rest) = d :=
+  scan_delim _ d q eol rest (by omega) hd hq heol
+
+/-- Non-fallback mode, `Length` = payload length: `rawdata` is exactly the payload - whatever bytes it
+contains, `endstream` included - and the parser resumes exactly at the `endstream` keyword, whatever
+(marker-free) bytes `tail` stand between the payload and the keyword (EOL, blanks, nothing). -/
+theorem stream_read_exact (pre kw eol0 d tail q eol rest : Bytes)
+    (hkw : ∀ c ∈ kw, c ≠ 10 ∧ c ≠ 13)
+    (heol0 : EolOk eol0 (d ++ (tail ++ ENDSTREAM_MARK ++ q ++ eol ++ rest)))
+    (htail : findSub ENDSTREAM_MARK (tail ++ ENDSTREAM_MARK) = some tail.length)
+    (hq : ∀ c ∈ q, c ≠ 10 ∧ c ≠ 13) (heol : EolOk eol rest) :
+    streamRead false (pre ++ kw ++ eol0 ++ (d ++ (tail ++ ENDSTREAM_MARK ++ q ++ eol ++ rest))) pre.length
+        (some (d.length : Int))
+      = .ok (d, pre.length + kw.length + eol0.length + d.length + tail.length) := by
+  rw [streamRead_core false pre kw eol0 _ _ hkw heol0]
+  have ho := objlen_exact d.length
+    (pre ++ kw ++ eol0 ++ (d ++ (tail ++ ENDSTREAM_MARK ++ q ++ eol ++ rest))).length
+    (pre.length + (kw ++ eol0).length) (by simp; omega)
+  simp only [ho, List.take_left' rfl, List.drop_left' rfl, Bool.false_eq_true, if_false]
+  rw [scan_delim _ tail q eol rest (by simp; omega) htail hq heol]
+  simp [Nat.add_assoc]
+
+example : streamRead false ([60, 60, 62, 62] ++ [115, 116, 114, 101, 97, 109] ++ [13, 10] ++
+    ([101, 110, 100, 115, 116, 114, 101, 97, 109, 0, 10] ++ ([13, 10] ++ ENDSTREAM_MARK ++ [] ++ [10] ++ [101])))
+    4 (some 11) = .ok ([101, 110, 100, 115, 116, 114, 101, 97, 109, 0, 10], 25) := by decide
+
+/-- Fallback mode (the cross-reference table was rebuilt by scanning; `Length` is ignored, whatever
+it is): `rawdata` is exactly the bytes between the keyword line and the first `endstream`, for every
+marker-free `d`, and the parser resumes at the keyword. -/
+theorem stream_fallback_delim (pre kw eol0 d q eol rest : Bytes) (len : Option Int)
+    (hkw : ∀ c ∈ kw, c ≠ 10 ∧ c ≠ 13)
+    (heol0 : EolOk eol0 (d ++ ENDSTREAM_MARK ++ q ++ eol ++ rest))
+    (hd : findSub ENDSTREAM_MARK (d ++ ENDSTREAM_MARK) = some d.length)
+    (hq : ∀ c ∈ q, c ≠ 10 ∧ c ≠ 13) (heol : EolOk eol rest) :
+    streamRead true (pre ++ kw ++ eol0 ++ (d ++ ENDSTREAM_MARK ++ q ++ eol ++ rest)) pre.length len
+      = .ok (d, pre.length + kw.length + eol0.length + d.length) := by
+  rw [streamRead_core true pre kw eol0 _ _ hkw heol0]
+  simp only [objlen_fallback, List.take_zero, List.drop_zero, if_true, List.nil_append]
+  rw [scan_delim _ d q eol rest (by simp; omega) hd hq heol]
+  simp [Nat.add_assoc]
+
+example : streamRead true ([60, 60, 62, 62] ++ [115, 116, 114, 101, 97, 109] ++ [10] ++
+    ([1, 13, 10, 13, 101, 110, 100, 10] ++ ENDSTREAM_MARK ++ [32] ++ [13, 10] ++ [])) 4 (some (-7))
+    = .ok ([1, 13, 10, 13, 101, 110, 100, 10], 19) := by decide
+example : findSub ENDSTREAM_MARK ([1, 13, 10, 13, 101, 110, 100, 10] ++ ENDSTREAM_MARK) = some 8 := by decide
+
+/-- The hypothesis of the three theorems above in plain terms: it holds for EVERY byte string in
+which `endstream` does not occur (at no offset `i` does the marker start) - `endstream` has no
+border, so no occurrence can straddle the end of `d`. -/
+theorem stream_marker_free (d : Bytes) (h : ∀ i, startsWith ENDSTREAM_MARK (d.drop i) = false) :
+    findSub ENDSTREAM_MARK (d ++ ENDSTREAM_MARK) = some d.length :=
+  findSub_of_free d h
+
+example : ∀ i, i < 9 → startsWith ENDSTREAM_MARK (([101, 110, 100, 115, 116, 114, 101, 97] : Bytes).drop i) = false := by decide
+
+/-- The scan's fuel (`file.length + 1` in `streamRead`) suffices: more fuel never changes the result. -/
+theorem scan_fuel (s : Bytes) (k : Nat) : scanEndstream (s.length + 1 + k) s = scanEndstream (s.length + 1) s :=
+  scan_fuel_aux _ _ s (by omega) (by omega)
+
+example : scanEndstream 100 ([1, 10, 2] ++ ENDSTREAM_MARK ++ [10]) = [1, 10, 2] := by decide
+
+/-- In non-fallback mode the payload of `streamRead` is the one of `streamPayload` (the function the
+delimitation theorems `stream_delim*` are about), for every file, position and `Length`: the clamp
+only ever cuts at the end of the file; a negative or missing `Length` reads nothing. -/
+theorem stream_read_payload (file : Bytes) (pos : Nat) (len : Option Int) :
+    (streamRead false file pos len).map Prod.fst = streamPayload file pos (len.getD 0).toNat := by
+  unfold streamRead streamPayload
+  cases nextline (file.drop pos) with
+  | none => rfl
+  | some line =>
+    simp only [Except.map, Bool.false_eq_true, if_false, objlen_le]
+    congr 1
+    rw [List.take_eq_take_iff]
+    simp
+
+example : (streamRead false [115, 10, 1, 2, 3] 0 (some (-4))).map Prod.fst = .ok [] := by decide
+example : (streamRead false [115, 10, 1, 2, 3] 0 (some 1000000)).map Prod.fst = .ok [1, 2, 3] := by decide
+example : (streamRead false [115, 10, 1, 2, 3] 0 none).map Prod.fst = .ok [] := by decide
+
+/-! ## Round 6: the keys of the stream dictionary -/
+
+/-- The chain theorem through the stream dictionary: whichever of the keys `get_filters` reads
+(`FILTER_KEYS` = `F`, `Filter`; `PARMS_KEYS` = `DP`, `DecodeParms`, `FDecodeParms` - regenerated from
+pdftypes.py) carries the `Filter` array and the `DecodeParms` array of the chain, the stream decodes
+to the payload. -/
+theorem stream_keys_rt {inflate : Bytes → Bytes} (stages : List (Stage inflate)) (x z : Bytes)
+    (h : ChainEncodes stages x z) (kf kp : Bytes) (hkf : kf ∈ FILTER_KEYS) (hkp : kp ∈ PARMS_KEYS) :
+    streamDecodeDict inflate [(kf, .list (stages.map (·.filt.1)))] [(kp, .list (stages.map (·.filt.2)))] z = .ok x := by
+  have hf : getAny FILTER_KEYS [(kf, FilterVal.list (stages.map (·.filt.1)))]
+      = some (.list (stages.map (·.filt.1))) := by
+    simp only [FILTER_KEYS, List.mem_cons, List.not_mem_nil, or_false] at hkf
+    rcases hkf with rfl | rfl <;> rfl
+  have hp : getAny PARMS_KEYS [(kp, ParmsVal.list (stages.map (·.filt.2)))]
+      = some (.list (stages.map (·.filt.2))) := by
+    simp only [PARMS_KEYS, List.mem_cons, List.not_mem_nil, or_false] at hkp
+    rcases hkp with rfl | rfl | rfl <;> rfl
+  simp only [streamDecodeDict, hf, hp, Option.getD_some]
+  exact stream_chain_rt stages x z h
+
+/-- `F` wins over `Filter`, `DP` over `DecodeParms` over `FDecodeParms`, unrelated keys are ignored. -/
+example : streamFilters [([70, 105, 108, 116, 101, 114], .name [70, 108]), ([88], .name [1]), ([70], .name [65, 72, 120])]
+    [([70, 68, 101, 99, 111, 100, 101, 80, 97, 114, 109, 115], .dict ⟨some 2, none, none, none⟩),
+     ([68, 80], .dict ⟨some 12, none, none, none⟩)]
+    = [([65, 72, 120], some ⟨some 12, none, none, none⟩)] := rfl
+
+/-- Which key `get_filters` reads, for EVERY stream dictionary (any other keys, any order): `F` when
+present, else `Filter`; `DP` when present, else `DecodeParms`, else `FDecodeParms`; else the default. -/
+theorem dict_keys_priority {α β : Type} (fattrs : List (Bytes × α)) (pattrs : List (Bytes × β)) :
+    getAny FILTER_KEYS fattrs =
+      (match fattrs.find? (fun p => p.1 == [70]) with
+       | some p => some p.2
+       | none => match fattrs.find? (fun p => p.1 == [70, 105, 108, 116, 101, 114]) with
+         | some p => some p.2
+         | none => none) ∧
+    getAny PARMS_KEYS pattrs =
+      (match pattrs.find? (fun p => p.1 == [68, 80]) with
+       | some p => some p.2
+       | none => match pattrs.find? (fun p => p.1 == [68, 101, 99, 111, 100, 101, 80, 97, 114, 109, 115]) with
+         | some p => some p.2
+         | none => match pattrs.find? (fun p => p.1 == [70, 68, 101, 99, 111, 100, 101, 80, 97, 114, 109, 115]) with
+           | some p => some p.2
+           | none => none) := by
+  constructor
+  · simp only [FILTER_KEYS, getAny]
+    cases fattrs.find? (fun p => p.1 == [70]) with
+    | some p => rfl
+    | none =>
+      simp only []
+      cases fattrs.find? (fun p => p.1 == [70, 105, 108, 116, 101, 114]) <;> rfl
+  · simp only [PARMS_KEYS, getAny]
+    cases pattrs.find? (fun p => p.1 == [68, 80]) with
+    | some p => rfl
+    | none =>
+      simp only []
+      cases pattrs.find? (fun p => p.1 == [68, 101, 99, 111, 100, 101, 80, 97, 114, 109, 115]) with
+      | some p => rfl
+      | none =>
+        simp only []
+        cases pattrs.find? (fun p => p.1 == [70, 68, 101, 99, 111, 100, 101, 80, 97, 114, 109, 115]) <;> rfl
+
+/-- … hence the chain theorem for every stream dictionary whose winning keys carry the chain's arrays. -/
+theorem stream_dict_rt {inflate : Bytes → Bytes} (stages : List (Stage inflate)) (x z : Bytes)
+    (h : ChainEncodes stages x z) (fattrs : List (Bytes × FilterVal)) (pattrs : List (Bytes × ParmsVal))
+    (hf : getAny FILTER_KEYS fattrs = some (.list (stages.map (·.filt.1))))
+    (hp : getAny PARMS_KEYS pattrs = some (.list (stages.map (·.filt.2)))) :
+    streamDecodeDict inflate fattrs pattrs z = .ok x := by
+  simp only [streamDecodeDict, hf, hp, Option.getD_some]
+  exact stream_chain_rt stages x z h
+
+example : getAny FILTER_KEYS [([76], (1 : Nat)), ([70, 105, 108, 116, 101, 114], 2), ([70], 3)] = some 3 := by decide
+example : getAny PARMS_KEYS [([70, 68, 101, 99, 111, 100, 101, 80, 97, 114, 109, 115], (1 : Nat)),
+    ([68, 101, 99, 111, 100, 101, 80, 97, 114, 109, 115], 2)] = some 2 := by decide
+
+/-! ## Round 6: `Length` direct or indirect -/
+
+/-- `Length` direct or indirect: `int_value(dic["Length"])` gives the same value for the integer `n`
+written in the dictionary and for a reference to an object that holds `n` (whatever else the file
+defines); a reference to a missing object, to itself or to a non-integer gives 0 (non-strict). -/
+theorem length_direct_indirect (objs : List (Nat × LenObj)) (id : Nat) (n : Int)
+    (h : objs.find? (fun p => p.1 == id) = some (id, .int n)) :
+    lengthValue objs (some (.ref id)) = lengthValue objs (some (.int n)) ∧
+    lengthValue objs (some (.int n)) = some n ∧
+    (∀ objs' id', objs'.find? (fun p => p.1 == id') = none → lengthValue objs' (some (.ref id')) = some 0) ∧
+    lengthValue [(id, .ref id)] (some (.ref id)) = some 0 ∧
+    lengthValue objs (some .other) = some 0 ∧ lengthValue objs none = none := by
+  refine ⟨?_, ?_, fun o i hi => lengthValue_missing_obj o i hi, ?_, ?_, rfl⟩
+  · rw [lengthValue_indirect objs id n h]; simp [lengthValue, resolveLen]
+  · simp [lengthValue, resolveLen]
+  · simp [lengthValue, resolveLen]
+  · simp [lengthValue, resolveLen]
+
+/-- The resolution loop's fuel suffices. -/
+theorem length_resolve_fuel (objs : List (Nat × LenObj)) (x : LenObj) (k : Nat) :
+    resolveLen (objs.length + 1 + k) objs x = resolveLen (objs.length + 1) objs x :=
+  resolveLen_fuel _ _ objs x (by omega) (by omega)
+
+/-- `stream_read_exact` with an indirect `Length`. -/
+theorem stream_read_indirect (objs : List (Nat × LenObj)) (id : Nat)
+    (pre kw eol0 d tail q eol rest : Bytes)
+    (hlen : objs.find? (fun p => p.1 == id) = some (id, .int d.length))
+    (hkw : ∀ c ∈ kw, c ≠ 10 ∧ c ≠ 13)
+    (heol0 : EolOk eol0 (d ++ (tail ++ ENDSTREAM_MARK ++ q ++ eol ++ rest)))
+    (htail : findSub ENDSTREAM_MARK (tail ++ ENDSTREAM_MARK) = some tail.length)
+    (hq : ∀ c ∈ q, c ≠ 10 ∧ c ≠ 13) (heol : EolOk eol rest) :
+    streamRead false (pre ++ kw ++ eol0 ++ (d ++ (tail ++ ENDSTREAM_MARK ++ q ++ eol ++ rest))) pre.length
+        (lengthValue objs (some (.ref id)))
+      = .ok (d, pre.length + kw.length + eol0.length + d.length + tail.length) := by
+  rw [lengthValue_indirect objs id _ hlen]
+  exact stream_read_exact pre kw eol0 d tail q eol rest hkw heol0 htail hq heol
+
+example : lengthValue [(7, .ref 8), (8, .ref 9), (9, .int 5)] (some (.ref 7)) = some 5 := by decide
+example : lengthValue [(7, .ref 8), (8, .ref 7)] (some (.ref 7)) = some 0 := by decide
+example : lengthValue [(7, .int (-3)), (7, .int 4)] (some (.ref 7)) = some (-3) := by decide
+
+/-! ## Round 6: from the file to the payload -/
+
+/-- The property in one statement, from the bytes of the file to the payload: for every chain of
+stages (any length, any of the five filters under full or abbreviated names, any predictor
+setting), every payload `x` and every encoding `z` of it, a file that holds `z` between the keyword
+line and `endstream` (any marker-free `tail` in between, `Length = |z|`) is read by the `stream`
+branch as exactly `z`, which `PDFStream.decode` turns into exactly `x`. -/
+theorem file_chain_rt {inflate : Bytes → Bytes} (stages : List (Stage inflate)) (x z : Bytes)
+    (h : ChainEncodes stages x z) (pre kw eol0 tail q eol rest : Bytes)
+    (hkw : ∀ c ∈ kw, c ≠ 10 ∧ c ≠ 13)
+    (heol0 : EolOk eol0 (z ++ (tail ++ ENDSTREAM_MARK ++ q ++ eol ++ rest)))
+    (htail : findSub ENDSTREAM_MARK (tail ++ ENDSTREAM_MARK) = some tail.length)
+    (hq : ∀ c ∈ q, c ≠ 10 ∧ c ≠ 13) (heol : EolOk eol rest) :
+    (streamRead false (pre ++ kw ++ eol0 ++ (z ++ (tail ++ ENDSTREAM_MARK ++ q ++ eol ++ rest))) pre.length
+        (some (z.length : Int))).bind
+      (fun r => streamDecode inflate (.list (stages.map (·.filt.1))) (.list (stages.map (·.filt.2))) r.1)
+      = .ok x := by
+  rw [stream_read_exact pre kw eol0 z tail q eol rest hkw heol0 htail hq heol]
+  exact stream_chain_rt stages x z h
+
+example : (streamRead false ([60, 60, 62, 62] ++ [115, 116, 114, 101, 97, 109] ++ [13, 10] ++
+      (ahxEnc [1, 2] 0 (pngEnc 2 2 8 [4] [[1, 2, 3, 4]]) ++ ([10] ++ ENDSTREAM_MARK ++ [] ++ [10] ++ [101]))) 4
+      (some ((ahxEnc [1, 2] 0 (pngEnc 2 2 8 [4] [[1, 2, 3, 4]])).length : Int))).bind
+    (fun r => streamDecode id (.list [[65, 72, 120], [70, 108]])
+      (.list [none, some { predictor := some 12, colors := some 2, columns := some 2, bpc := none }]) r.1)
+    = .ok [1, 2, 3, 4] := by decide
 
 /-! ## The pinned code (before the two `fix:` commits) violates the property
 
